@@ -440,6 +440,53 @@ func (h *H) stepInjectTie() {
 	}
 }
 
+// stepInjectConflictFan injects a multi-input transaction A(u0,u1,..) together with single-input
+// transactions B(u0), C(u1), .. that each conflict with A but not with each other, with fees
+// chosen so that A ranks first or last. Block creation must keep either A alone or the others.
+func (h *H) stepInjectConflictFan() {
+	m := h.Pub.M
+	n := 2 + h.Rng.Intn(2)
+	var in []coin.UxOut
+	for _, ux := range h.pickInputs(m, 12, true, true) {
+		if _, ok := h.Chain.KeyFor(ux.Body.Address); !ok {
+			continue
+		}
+		if hrs, ok := availableHours(m, []coin.UxOut{ux}); !ok || hrs < 8 || ux.Body.Coins%1000 != 0 {
+			continue
+		}
+		in = append(in, ux)
+		if len(in) == n {
+			break
+		}
+	}
+	if len(in) < 2 {
+		return
+	}
+	aFirst := h.Rng.Intn(2) == 0
+	total, _ := availableHours(m, in)
+	var coins uint64
+	for _, ux := range in {
+		coins += ux.Body.Coins
+	}
+	// fee share: burn half (high priority) or the minimum tenth (low priority)
+	outA := total / 2
+	if !aFirst {
+		outA = total - (total+4)/5
+	}
+	a := h.Chain.MakeTxn(in, []fix.Out{{Addr: h.randAddr(), Coins: coins, Hours: outA}})
+	h.R.Count("inject.conflict_fans", 1)
+	h.inject(h.Pub, a, "fan-a", true)
+	for i, ux := range in {
+		hrs, _ := availableHours(m, []coin.UxOut{ux})
+		out := hrs - (hrs+4)/5
+		if !aFirst {
+			out = hrs / 2
+		}
+		t := h.Chain.MakeTxn([]coin.UxOut{ux}, []fix.Out{{Addr: h.Chain.Keys[i%len(h.Chain.Keys)].Addr, Coins: ux.Body.Coins, Hours: out}})
+		h.inject(h.Pub, t, "fan-leaf", true)
+	}
+}
+
 func describeTxn(t *coin.Transaction) string {
 	return fmt.Sprintf("txn %s in=%d out=%d", ledger.TxnHash(t).Hex()[:12], len(t.In), len(t.Out))
 }
